@@ -450,3 +450,118 @@ Proof.
   destruct (memb f ws) eqn:E; [reflexivity|].
   apply H, memb_In in Hf. congruence.
 Qed.
+
+(* ---------- semantic isolation on the value machine ---------- *)
+
+Section ValueProofs.
+  Variable V : Type.
+
+  Lemma vrun_snoc (l : list (vaction V)) a s : vrun V (l ++ [a]) s = vexec V a (vrun V l s).
+  Proof. revert s; induction l as [|b l IH]; intro s; simpl; [reflexivity|apply IH]. Qed.
+
+  Lemma solo_S th rg m k a : nth_error th k = Some a ->
+    solo V th rg m (S k) = vexec V a (solo V th rg m k).
+  Proof. intro H. unfold solo. rewrite (firstn_S_nth _ _ _ H). apply vrun_snoc. Qed.
+
+  Lemma nth_set_regs_eq (l : list (vregs V)) i v : i < length l -> nth i (set_regs V l i v) [] = v.
+  Proof. revert i; induction l as [|a l IH]; intros [|i] H; simpl in *; try lia; try reflexivity. apply IH; lia. Qed.
+
+  Lemma nth_set_regs_neq (l : list (vregs V)) i j v : i <> j -> nth j (set_regs V l i v) [] = nth j l [].
+  Proof. revert i j; induction l as [|a l IH]; intros [|i] [|j] H; simpl; try reflexivity; try congruence. apply IH; congruence. Qed.
+
+  Lemma length_set_regs (l : list (vregs V)) i v : length (set_regs V l i v) = length l.
+  Proof. revert i; induction l as [|a l IH]; intros [|i]; simpl; auto. Qed.
+
+  (* for the fixed request t: its registers and the memory it reads are those of its solo run *)
+  Definition vinv (P : list (vthread V)) (init : list (vregs V)) (m0 : vmem V) (t : nat) (s : vstate V) : Prop :=
+    length (vpc V s) = length P /\ length (vrs V s) = length P /\
+    nth t (vrs V s) [] = fst (solo V (nth t P []) (nth t init []) m0 (nth t (vpc V s) 0)) /\
+    forall x, vreads V (nth t P []) x ->
+      snd s x = snd (solo V (nth t P []) (nth t init []) m0 (nth t (vpc V s) 0)) x.
+
+  Lemma vinv_step P init m0 t s s' : t < length P -> undisturbed V P t ->
+    vinv P init m0 t s -> vstep V P s s' -> vinv P init m0 t s'.
+  Proof.
+    intros Ht Hu (Hl1 & Hl2 & Hr & Hm) Hst.
+    inversion Hst as [pc rs m t' a Ht' Hi]; subst. unfold vinv, vpc, vrs in *; cbn [fst snd] in *.
+    split; [unfold bump; rewrite length_set_nth; assumption|].
+    split; [rewrite length_set_regs; assumption|].
+    destruct (Nat.eq_dec t' t) as [->|Hne].
+    - (* the request itself steps: same action on the same registers and read values *)
+      unfold bump. rewrite nth_set_nth_eq by lia. rewrite nth_set_regs_eq by lia.
+      rewrite (solo_S _ _ _ _ _ Hi).
+      set (so := solo V (nth t P []) (nth t init []) m0 (nth t pc 0)) in *.
+      destruct a as [r x|x f|r f|]; cbn [vexec fst snd].
+      + assert (m x = snd so x) as E by (apply Hm; exists (nth t pc 0), r; exact Hi).
+        rewrite Hr, E. split; [reflexivity|exact Hm].
+      + rewrite Hr. split; [reflexivity|]. intros y Hy. unfold updm.
+        destruct (Nat.eqb y x); [reflexivity|auto].
+      + rewrite Hr. split; [reflexivity|exact Hm].
+      + split; assumption.
+    - (* another request steps: it does not write what t reads *)
+      unfold bump. rewrite nth_set_nth_neq by assumption. rewrite nth_set_regs_neq by assumption.
+      split; [assumption|]. intros y Hy.
+      destruct a as [r x|x f|r f|]; cbn [vexec fst snd]; auto.
+      unfold updm. destruct (Nat.eqb y x) eqn:E; [|auto].
+      apply Nat.eqb_eq in E. subst y. exfalso.
+      apply (Hu x Hy t' Ht' Hne). exists (nth t' pc 0), f. exact Hi.
+  Qed.
+
+  Theorem value_isolation_lemma P init m0 t : t < length P -> length init = length P ->
+    undisturbed V P t -> forall s, vreach V P init m0 s ->
+    nth t (vrs V s) [] = fst (solo V (nth t P []) (nth t init []) m0 (nth t (vpc V s) 0)).
+  Proof.
+    intros Ht Hlen Hu s Hr. assert (vinv P init m0 t s) as (_ & _ & H & _); [|exact H].
+    induction Hr as [|s s' _ IH Hst]; [|exact (vinv_step P init m0 t s s' Ht Hu IH Hst)].
+    unfold vinv, vpc, vrs; cbn [fst snd]. rewrite nth_repeat0.
+    repeat split; auto using repeat_length.
+  Qed.
+
+  (* skeleton facts *)
+  Lemma vreads_vaccs th x : vreads V th x -> In (x, false) (vaccs V th).
+  Proof.
+    intros (i & r & H). unfold vaccs. apply in_flat_map. exists (VRead V r x).
+    split; [eapply nth_error_In; eauto|now left].
+  Qed.
+  Lemma vwrites_vaccs th x : vwrites V th x -> In (x, true) (vaccs V th).
+  Proof.
+    intros (i & f & H). unfold vaccs. apply in_flat_map. exists (VWrite V x f).
+    split; [eapply nth_error_In; eauto|now left].
+  Qed.
+End ValueProofs.
+
+Lemma accs_read_In b x : In (x, false) (accs b) -> In x (reads_of b).
+Proof.
+  unfold accs, reads_of. rewrite !in_flat_map. intros (a & Ha & Hin). exists a. split; [assumption|].
+  destruct (acc_loc a) as [y|]; [|destruct Hin]. destruct Hin as [E|[]]. injection E as -> Hw. rewrite Hw. now left.
+Qed.
+Lemma accs_write_In b x : In (x, true) (accs b) -> In x (writes_of b).
+Proof.
+  unfold accs, writes_of. rewrite !in_flat_map. intros (a & Ha & Hin). exists a. split; [assumption|].
+  destruct (acc_loc a) as [y|]; [|destruct Hin]. destruct Hin as [E|[]]. injection E as -> Hw. rewrite Hw. now left.
+Qed.
+
+Lemma writes_in_written_locs B b x : In b B -> In x (writes_of b) -> In x (written_locs B).
+Proof. intros Hb Hx. unfold written_locs. apply In_nodup_nat. apply in_flat_map. exists b. auto. Qed.
+
+(* a value program whose bodies have the access skeletons of a pool B: a request whose
+   skeleton is one of the read-only-sharing bodies of B computes what it computes alone *)
+Theorem pool_value_isolation_lemma (V : Type) (B : list thread) (extra : list nat)
+  (P : list (vthread V)) init m0 t :
+  t < length P -> length init = length P ->
+  (forall t', t' < length P -> exists b, In b B /\ vaccs V (nth t' P []) = accs b) ->
+  (exists b, In b (isolated_bodies B (written_locs B ++ extra)) /\ vaccs V (nth t P []) = accs b) ->
+  forall s, vreach V P init m0 s ->
+  nth t (vrs V s) [] = fst (solo V (nth t P []) (nth t init []) m0 (nth t (vpc V s) 0)).
+Proof.
+  intros Ht Hlen Hall (b & Hb & Eb). apply value_isolation_lemma; auto.
+  intros x Hx t' Ht' Hne Hw.
+  apply filter_In in Hb. destruct Hb as [_ Hf]. rewrite forallb_forall in Hf.
+  apply vreads_vaccs in Hx. rewrite Eb in Hx. apply accs_read_In in Hx.
+  specialize (Hf x Hx). apply negb_true_iff in Hf.
+  destruct (Hall t' Ht') as (b' & Hb' & Eb').
+  apply vwrites_vaccs in Hw. rewrite Eb' in Hw. apply accs_write_In in Hw.
+  pose proof (writes_in_written_locs B b' x Hb' Hw) as Hin.
+  assert (memb x (written_locs B ++ extra) = true) as Hm by (apply memb_In, in_or_app; now left).
+  congruence.
+Qed.
